@@ -17,6 +17,7 @@ import (
 	"github.com/tdakkota/docker-logql/internal/dockerlog"
 	"github.com/tdakkota/docker-logql/internal/logql"
 	"github.com/tdakkota/docker-logql/internal/logql/logqlengine"
+	"github.com/tdakkota/docker-logql/internal/logql/logqlengine/logqlmetric"
 	"github.com/tdakkota/docker-logql/internal/logstorage"
 	"github.com/tdakkota/docker-logql/internal/lokiapi"
 	"github.com/tdakkota/docker-logql/internal/otelstorage"
@@ -102,13 +103,15 @@ func installMapOrder(v *Variant, calls *int) {
 			*calls++
 			return keys
 		}
-		logqlengine.VerifStreamOrder = func(n int) []int {
+		identity := func(n int) []int {
 			out := make([]int, n)
 			for i := range out {
 				out[i] = i
 			}
 			return out
 		}
+		logqlengine.VerifStreamOrder = identity
+		logqlmetric.VerifSampleOrder = identity
 		return
 	}
 	root := NewRng(v.MapSeed)
@@ -124,11 +127,17 @@ func installMapOrder(v *Variant, calls *int) {
 	logqlengine.VerifStreamOrder = func(n int) []int {
 		return root.Sub("streams").Perm(n)
 	}
+	sampleCalls := uint64(0)
+	logqlmetric.VerifSampleOrder = func(n int) []int {
+		sampleCalls++
+		return root.SubN("samples", sampleCalls).Perm(n)
+	}
 }
 
 func uninstallMapOrder() {
 	logqlengine.VerifMapOrder = nil
 	logqlengine.VerifStreamOrder = nil
+	logqlmetric.VerifSampleOrder = nil
 }
 
 // Exec executes variant vi of the plan and returns what was observed.
